@@ -10,7 +10,7 @@ name = os.path.basename(src)
 VERIF = os.path.dirname(os.path.dirname(os.path.abspath(__file__)))
 dst = os.path.join(VERIF, 'seeded', name)
 wt = '/tmp/seedverify-' + name
-env = dict(os.environ, CARGO_TARGET_DIR='/tmp/seedverify-target', CARGO_NET_OFFLINE='true')
+env = dict(os.environ, CARGO_TARGET_DIR='/tmp/seedverify-target', CARGO_NET_OFFLINE='true', CARGO_BUILD_JOBS=os.environ.get('CARGO_BUILD_JOBS', '6'))
 
 def sh(cmd, cwd=None, timeout=3600):
     p = subprocess.run(cmd, shell=True, cwd=cwd, env=env, capture_output=True, text=True, timeout=timeout)
@@ -41,6 +41,20 @@ if '--no-confirm' not in sys.argv:
     finally:
         sh('git -C /repo worktree remove --force %s' % wt)
         sh('rm -rf %s' % wt)
+if '--no-check' in sys.argv:
+    os.makedirs(dst, exist_ok=True)
+    for f in ('patch.diff', 'demo.rs', 'notes.txt'):
+        if os.path.exists(os.path.join(src, f)) and os.path.abspath(src) != os.path.abspath(dst):
+            shutil.copy(os.path.join(src, f), dst)
+    notes = open(os.path.join(dst, 'notes.txt')).read() if os.path.exists(os.path.join(dst, 'notes.txt')) else ''
+    meta['needs_to_manifest'] = notes.strip()
+    if os.path.exists(os.path.join(dst, 'meta.json')):
+        old = json.load(open(os.path.join(dst, 'meta.json')))
+        for k in ('check', 'detected'):
+            if k in old: meta[k] = old[k]
+    json.dump(meta, open(os.path.join(dst, 'meta.json'), 'w'), indent=1)
+    print(name, 'head_ok=%s patched_fails=%s suite_ok=%s (check not run)' % (meta.get('demo_passes_on_head'), meta.get('demo_fails_with_patch'), meta.get('pinned_suite_passes_with_patch')))
+    sys.exit(0)
 # run the check against a scratch copy of /repo's working tree with the patch applied
 # (equivalent to `git -C /repo apply` + check + `git -C /repo checkout -- .`, but does not disturb
 # other work going on in /repo)
